@@ -475,6 +475,43 @@ func detectRenames(ref symTable, cfg string, cur symTable, objs map[string]types
 			}
 			return cands[i].key < cands[j].key
 		})
+		if len(cands) > 1 && cands[0].score-cands[1].score < 0.2 && (me.Kind == "func" || me.Kind == "method") {
+			// two siblings with the same signature and the same neighbourhood (a counter's "take" and "peek"): told
+			// apart by who calls them
+			callersOf := func(tab symTable, name string, cfgAware bool) []string {
+				var out []string
+				for k, e := range tab {
+					if e.Kind != "func" && e.Kind != "method" {
+						continue
+					}
+					ms := e.Members
+					if cfgAware {
+						if !hasCfg(e, cfg) {
+							continue
+						}
+						ms = membersFor(e, cfg)
+					}
+					for _, m := range ms {
+						if m == name {
+							out = append(out, k)
+						}
+					}
+				}
+				sort.Strings(out)
+				return out
+			}
+			refCallers := callersOf(ref, mname, true)
+			for i := range cands {
+				_, _, cn := splitKey(cands[i].key)
+				cands[i].score += jaccard(refCallers, callersOf(ccur, cn, false))
+			}
+			sort.Slice(cands, func(i, j int) bool {
+				if cands[i].score != cands[j].score {
+					return cands[i].score > cands[j].score
+				}
+				return cands[i].key < cands[j].key
+			})
+		}
 		if len(cands) > 1 && cands[0].score-cands[1].score < 0.2 {
 			continue // ambiguous
 		}
